@@ -837,8 +837,14 @@ impl {node_enum_name} {{
             return self.get_empty_fieldset_src(options);
         }
 
+        let pub_ = if options.use_pub_on_named_fields {
+            "pub "
+        } else {
+            ""
+        };
         //@[ proof
-        let ghost g = |f: TupleField| tuple_line(self.file, f);
+        let ghost up = options.use_pub_on_named_fields;
+        let ghost g = |f: TupleField| tuple_line(self.file, up, f);
         //@]
         let fields_indent_1 = /*@[*/{ let __vx_v = /*@]*//*@{ T18_open_tuple*//*@- fieldset
             .fields
@@ -850,12 +856,12 @@ impl {node_enum_name} {{
                 TupleField::Skipped(_) => None,
                 TupleField::Used(IdentOrTerminalIdent::Ident(field_type)) => {
                     let field_type_name = &field_type.name;
-                    Some(format!("Box<{field_type_name}>,"))
+                    Some(format!("{pub_}Box<{field_type_name}>,"))
                 }
                 TupleField::Used(IdentOrTerminalIdent::Terminal(field_type)) => {
                     let field_type_name =
                         self.file.terminal_enum.get_type(&field_type.name).unwrap();
-                    Some(format!("{field_type_name},"))
+                    Some(format!("{pub_}{field_type_name},"))
                 }
             }/*@[*/ }/*@]*//*@{ T18_close_tuple*//*@- )
             .collect::<Vec<_>>()
@@ -1469,12 +1475,13 @@ pub open spec fn named_line(fl: &File, use_pub: bool, f: NamedField) -> Option<S
         (IdentOrUnderscore::Ident(n), IdentOrTerminalIdent::Terminal(t)) => Some(pub_src(use_pub) + (n.name@ + (": "@ + (term_type_src(fl, t.name) + ","@)))),
     }
 }
-/// one line per used tuple field: `Box<Nonterminal>,` or `<payload type>,`; skipped fields give no line
-pub open spec fn tuple_line(fl: &File, f: TupleField) -> Option<Seq<char>> {
+/// one line per used tuple field: `[pub ]Box<Nonterminal>,` or `[pub ]<payload type>,` (C06: the fields of a struct are public, named or not);
+/// skipped fields give no line
+pub open spec fn tuple_line(fl: &File, use_pub: bool, f: TupleField) -> Option<Seq<char>> {
     match f {
         TupleField::Skipped(_) => None,
-        TupleField::Used(IdentOrTerminalIdent::Ident(t)) => Some("Box<"@ + (t.name@ + ">,"@)),
-        TupleField::Used(IdentOrTerminalIdent::Terminal(t)) => Some(term_type_src(fl, t.name) + ","@),
+        TupleField::Used(IdentOrTerminalIdent::Ident(t)) => Some(pub_src(use_pub) + ("Box<"@ + (t.name@ + ">,"@))),
+        TupleField::Used(IdentOrTerminalIdent::Terminal(t)) => Some(pub_src(use_pub) + (term_type_src(fl, t.name) + ","@)),
     }
 }
 pub open spec fn named_has_used(nf: NamedFieldset) -> bool { exists|i: int| 0 <= i < nf.fields@.len() && (#[trigger] nf.fields@[i]).name is Ident }
@@ -1487,7 +1494,7 @@ pub open spec fn fieldset_src_of(fl: &File, fs: Fieldset, use_semicolon: bool, u
             " {\n"@ + (indent_of_seq(join_spec(filter_map_spec(nf.fields@, |f: NamedField| named_line(fl, use_pub, f)), "\n"@), 1) + "\n}"@)
         },
         Fieldset::Tuple(tf) => if !tuple_has_used(tf) { semi_src(use_semicolon) } else {
-            "(\n"@ + (indent_of_seq(join_spec(filter_map_spec(tf.fields@, |f: TupleField| tuple_line(fl, f)), "\n"@), 1) + ("\n)"@ + semi_src(use_semicolon)))
+            "(\n"@ + (indent_of_seq(join_spec(filter_map_spec(tf.fields@, |f: TupleField| tuple_line(fl, use_pub, f)), "\n"@), 1) + ("\n)"@ + semi_src(use_semicolon)))
         },
     }
 }
